@@ -5,6 +5,7 @@ import (
 
 	"github.com/kercylan98/vivid"
 	"github.com/kercylan98/vivid/internal/queues"
+	"github.com/kercylan98/vivid/internal/verifhook"
 )
 
 var (
@@ -30,49 +31,66 @@ type UnboundedMailbox struct {
 }
 
 func (m *UnboundedMailbox) Pause() {
+	verifhook.At("mb.pause.store", m, nil)
 	atomic.StoreUint32(&m.paused, 1)
 }
 
 func (m *UnboundedMailbox) Resume() {
+	verifhook.At("mb.resume.cas_paused", m, nil)
 	if atomic.CompareAndSwapUint32(&m.paused, 1, 0) {
+		verifhook.At("mb.resume.cas_status", m, nil)
 		if atomic.CompareAndSwapUint32(&m.status, idle, processing) {
+			verifhook.At("mb.spawn", m, nil)
 			go m.process()
 		}
 	}
 }
 
 func (m *UnboundedMailbox) IsPaused() bool {
+	verifhook.At("mb.ispaused.load", m, nil)
 	return atomic.LoadUint32(&m.paused) == 1
 }
 
 func (m *UnboundedMailbox) Enqueue(envelop vivid.Envelop) {
 	if envelop.System() {
+		verifhook.At("mb.enq.push", m, envelop)
 		m.systemBuffer.Push(envelop)
+		verifhook.At("mb.enq.add", m, envelop)
 		atomic.AddInt32(&m.systemNum, 1)
 	} else {
+		verifhook.At("mb.enq.push", m, envelop)
 		m.buffer.Push(envelop)
+		verifhook.At("mb.enq.add", m, envelop)
 		atomic.AddInt32(&m.num, 1)
 	}
 
+	verifhook.At("mb.enq.cas", m, envelop)
 	if atomic.CompareAndSwapUint32(&m.status, idle, processing) {
+		verifhook.At("mb.spawn", m, nil)
 		go m.process()
 	}
 }
 
 func (m *UnboundedMailbox) process() {
+	verifhook.At("mb.proc.start", m, nil)
 process:
 	m.processHandle()
 
+	verifhook.At("mb.proc.store_idle", m, nil)
 	atomic.StoreUint32(&m.status, idle)
+	verifhook.At("mb.proc.load_num", m, nil)
 	user := atomic.LoadInt32(&m.num)
+	verifhook.At("mb.proc.load_sys", m, nil)
 	system := atomic.LoadInt32(&m.systemNum)
 	// 暂停期间仅有普通消息待处理时不应重新竞选，否则会在 Resume 之前空转占满 CPU；
 	// Resume 在清除暂停标记后会自行竞选处理权，因此不会丢失唤醒。
 	if system > 0 || (user > 0 && !m.IsPaused()) {
+		verifhook.At("mb.proc.cas", m, nil)
 		if atomic.CompareAndSwapUint32(&m.status, idle, processing) {
 			goto process
 		}
 	}
+	verifhook.At("mb.proc.exit", m, nil)
 }
 
 func (m *UnboundedMailbox) processHandle() {
@@ -82,23 +100,32 @@ func (m *UnboundedMailbox) processHandle() {
 	for {
 		// 优先处理系统消息
 		for {
+			verifhook.At("mb.ph.pop_sys", m, nil)
 			if msg, ok = m.systemBuffer.Pop(); ok {
+				verifhook.At("mb.ph.dec_sys", m, msg)
 				atomic.AddInt32(&m.systemNum, -1)
+				verifhook.At("mb.turn", m, msg)
 				m.handler.HandleEnvelop(msg.(vivid.Envelop))
+				verifhook.At("mb.turned", m, msg)
 			} else {
 				break
 			}
 		}
 
 		// 检查邮箱是否暂停，暂停时忽略普通消息处理
+		verifhook.At("mb.ph.load_paused", m, nil)
 		if atomic.LoadUint32(&m.paused) == 1 {
 			return
 		}
 
 		// 处理普通消息
+		verifhook.At("mb.ph.pop_user", m, nil)
 		if msg, ok = m.buffer.Pop(); ok {
+			verifhook.At("mb.ph.dec_user", m, msg)
 			atomic.AddInt32(&m.num, -1)
+			verifhook.At("mb.turn", m, msg)
 			m.handler.HandleEnvelop(msg.(vivid.Envelop))
+			verifhook.At("mb.turned", m, msg)
 		} else {
 			return
 		}
